@@ -88,6 +88,11 @@ def build_case(seed_cid):
     bad_ns = set(r["ns"] for r in rules for j in (0, 1) if r["glob"] and not r["truth"][j])
     has_ref_in_bad = any(r["isref"] and r["ns"] in bad_ns for r in rules)
     lines = ["cnew 0"]
+    # YR_CONFIG_MAX_MATCH_DATA only limits the bytes copied for the callback: which rules match, and the messages sent,
+    # must not depend on it (own generator so that the rest of the case is the same as without this variation)
+    cfg_rng = random.Random(seed * 2654435761 % (1 << 32) + 11)
+    if cfg_rng.random() < 0.3:
+        lines.insert(0, "cfg matchdata %d" % cfg_rng.choice([0, 0, 1, 2, 64]))
     for ns, text in pieces:
         lines.append("cadd 0 %s %s" % (hx(ns), hx(text)))
     lines += ["crules 0 0", "buf 0 " + hx(bufs[0]), "buf 1 " + hx(bufs[1]), "snew 0 0"]
